@@ -18,7 +18,7 @@ for d in sorted(os.listdir(root)):
         if mm:
             caught.append((mm.group(1), int(mm.group(2)), int(mm.group(3)), mm.group(4)))
     title = meta.get('title') or meta.get('needs_to_manifest', '').splitlines()[0][:110]
-    rows.append((d, meta['property'], title, caught, meta.get('strengthened', '')))
+    rows.append((d, meta['property'], title, caught, meta.get('strengthened', ''), meta.get('status', ''), meta.get('status_note', '')))
 with open(os.path.join(root, 'RESULTS.md'), 'w') as f:
     f.write('# Independent seeded changes and what the checks report on them\n\n')
     f.write('Each change was written by a fresh sub-agent that saw only the property text and a scratch worktree;\n'
@@ -27,12 +27,18 @@ with open(os.path.join(root, 'RESULTS.md'), 'w') as f:
             'of the property\'s check there. "strengthened" names what was added to the check after a first miss.\n\n')
     f.write('| seed | property | change | quick check | first message | strengthened |\n|---|---|---|---|---|---|\n')
     n = c = 0
-    for d, prop, title, caught, st in rows:
+    skipped = []
+    for d, prop, title, caught, st, status, note in rows:
+        if status:
+            skipped.append((d, status, note))
+            f.write(f'| {d} | {prop} | {title.replace("|", "/")} | {status} (not counted) | | {note} |\n')
+            continue
         n += 1
         ok = any(v > 0 and e == 1 for (_, e, v, _) in caught)
         c += ok
         verdict = '; '.join(f'{p}: ' + ('CAUGHT (%d violations)' % v if v > 0 else 'missed (exit %d)' % e) for (p, e, v, _) in caught) or 'not run'
         msg = (caught[0][3] if caught else '').replace('|', '\\|')[:150]
         f.write(f'| {d} | {prop} | {title.replace("|", "/")} | {verdict} | {msg} | {st} |\n')
-    f.write(f'\n{c} of {n} seeded changes are reported by the quick tier of their property\'s check.\n')
+    f.write(f'\n{c} of {n} seeded changes are reported by the quick tier of their property\'s check')
+    f.write(f' ({len(skipped)} further changes no longer apply to the current tree: ' + ', '.join(f'{d} {s}' for d, s, _ in skipped) + ').\n' if skipped else '.\n')
 print(open(os.path.join(root, 'RESULTS.md')).read()[-300:])
